@@ -4,19 +4,19 @@ REGISTRY = {
     "C07": dict(
         packs=["c07"], level="proof",
         replay=dict(script="replay/c07.py", args=["4"], timeout=900),
-        bounded=[dict(name="filter_args-vs-interpreter", script="replay/c07.py", args=["4"],
-                      bound="every signature with <= 4 parameters (5 kinds x default/no default, Python's well-formedness), as plain function and as bound method, x every call shape "
-                            "(36801 calls, 4345 accepted by the interpreter itself); also validates the pybind / accepts specification against real calls")],
+        bounded=[dict(name="audit-scenarios", script="replay/found.py", args=["C07", "{tier}"], timeout=1500, bound="scenarios contributed by audit sub-agents (replay/found/MANIFEST.json): repaired defects must stay repaired, recorded findings are probed"), dict(name="filter_args-vs-interpreter", script="replay/c07.py", args=["4"],
+                      bound="every signature with <= 4 parameters (5 kinds x default/no default, Python's well-formedness), as plain function, as bound method and as method without a parameter for the instance (def m(*args, ...)), x every call shape "
+                            "(48157 calls, 5476 accepted by the interpreter itself); also validates the pybind / accepts specification against real calls")],
         trusted=["inspect.signature returns a well-formed parameter list matching the function (kinds ordered, one */** at most, distinct identifiers): block axioms of contracts/c07.py",
                  "sorted(kwargs.items()) enumerates each keyword once"],
-        assumptions=["unbounded proof for plain functions and for bound methods whose first parameter is positional; functools.partial objects, methods with a *args first parameter and functools.wraps wrappers (K15) only through the bounded oracle",
+        assumptions=["unbounded proof for plain functions and for bound methods (first parameter positional, or *args receiving the instance); functools.partial objects (K22) and functools.wraps wrappers (K15) only through the bounded oracle",
                      "ignore list: distinct names that are keys of the full result"],
         undecided_clauses=[],
     ),
     "C19": dict(
         packs=["c19"], level="proof",
         replay=dict(script="replay/c19.py", args=["small"], timeout=900, python="/verif/.venv_np/bin/python"),
-        bounded=[dict(name="numpy-round-trip-grid", script="replay/c19.py", args=["{tier}"], timeout=1500, python="/verif/.venv_np/bin/python",
+        bounded=[dict(name="audit-scenarios", script="replay/found.py", args=["C19", "{tier}"], timeout=1500, bound="scenarios contributed by audit sub-agents (replay/found/MANIFEST.json): repaired defects must stay repaired, recorded findings are probed"), dict(name="numpy-round-trip-grid", script="replay/c19.py", args=["{tier}"], timeout=1500, python="/verif/.venv_np/bin/python",
                       bound="12 dtypes (both endiannesses, structured, object, datetime, str/bytes) x 7 shapes (0-d, empty, n-d) x C/Fortran/non-contiguous layouts, alone and nested, x 3 (quick) or 6 "
                             "(thorough) compressors; 4 mmap modes with alignment and file-unchanged checks (numpy from the offline wheelhouse in an overlay venv built by setup.sh)")],
         trusted=["numpy: nditer yields every element once in the requested order; frombuffer(tobytes) is the identity; make_memmap maps nbytes at offset; multiply.reduce(shape) is the element count",
@@ -78,7 +78,7 @@ REGISTRY = {
     "C03": dict(
         packs=["c03", "c13"], level="proof",
         replay=dict(script="replay/c03.py", args=[], timeout=900),
-        bounded=[dict(name="round-trip-battery", script="replay/c03.py", args=[],
+        bounded=[dict(name="audit-scenarios", script="replay/found.py", args=["C03", "{tier}"], timeout=1500, bound="scenarios contributed by audit sub-agents (replay/found/MANIFEST.json): repaired defects must stay repaired, recorded findings are probed"), dict(name="round-trip-battery", script="replay/c03.py", args=[],
                       bound="15 objects x 16 compress forms x 7 file names (+ renamed copy, open file, BytesIO); shared/recursive references under every protocol >= 2; 5 invalid requests")],
         trusted=["each codec's writer output starts with its magic prefix and its reader inverts its writer (zlib/gzip via C13's contracts; bz2/lzma/xz/lz4 external)",
                  "pickle._Pickler/_Unpickler round-trip values with shared and recursive references", "io.BufferedReader/Writer are transparent"],
@@ -159,7 +159,7 @@ REGISTRY = {
         packs=["c20", "c20b"],
         level="proof",
         replay=dict(script="replay/c20.py", args=["{seed}", "25"], timeout=900),
-        bounded=[dict(name="tracker-process-histories", script="replay/c20.py", args=["{seed}", "25"],
+        bounded=[dict(name="audit-scenarios", script="replay/found.py", args=["C20", "{tier}"], timeout=1500, bound="scenarios contributed by audit sub-agents (replay/found/MANIFEST.json): repaired defects must stay repaired, recorded findings are probed"), dict(name="tracker-process-histories", script="replay/c20.py", args=["{seed}", "25"],
                       bound="25 random request histories (<= 25 lines; balanced, unbalanced, malformed, unknown types, names with ':' and raising clean-ups) "
                             "fed to the real main() in a child process; unlink_file under 4 fault patterns")],
         trusted=["the kernel delivers EOF on the pipe exactly when the last client closed or died; lines are delivered whole (PIPE_BUF)",
@@ -186,7 +186,7 @@ REGISTRY = {
         packs=["c13", "mem"],
         level="proof",
         replay=dict(script="replay/c13.py", args=["damaged", "{seed}", "3"], timeout=900),
-        bounded=[dict(name="truncation-and-trailing-bytes", script="replay/c13.py", args=["damaged", "{seed}", "3"],
+        bounded=[dict(name="audit-scenarios", script="replay/found.py", args=["C14", "{tier}"], timeout=1500, bound="scenarios contributed by audit sub-agents (replay/found/MANIFEST.json): repaired defects must stay repaired, recorded findings are probed"), dict(name="truncation-and-trailing-bytes", script="replay/c13.py", args=["damaged", "{seed}", "3"],
                       bound="3 small objects x 6 compressors x every truncation point + 4 over-long variants, 15 s watchdog per load")],
         trusted=["pickle._Unpickler.load on a strict prefix of a valid stream raises (it can only return at STOP)",
                  "zlib / file-object contracts as in C13"],
